@@ -101,6 +101,33 @@ theorem zero_seed_getSeed_not_replayable :
       SeedGen.seeds 1 ((SeedGen.init 0).setSeed g.firstSeed).1 ≠ SeedGen.seeds 1 g :=
   ⟨5, by decide⟩
 
+/-- The property's first sentence, for the generators themselves: in two processes whose clocks read `c₁` and
+`c₂`, after `setSeed s` the first `n` default-constructed `RNG()` objects are equal (local seed, all 624 words of
+`mt19937`, index, normal-distribution cache) — hence every stream drawn from the `i`-th of them is the same. -/
+theorem created_generators_function_of_seed (c₁ c₂ s : UInt64) (n : Nat) :
+    (World.createN n { sg := ((SeedGen.init c₁).setSeed s).1, rngs := #[] }).rngs =
+      (World.createN n { sg := ((SeedGen.init c₂).setSeed s).1, rngs := #[] }).rngs := by
+  refine createN_congr _ _ _ ?_ rfl
+  simp only [SeedGen.setSeed, SeedGen.init]
+  split <;> simp
+
+/-- the `i`-th local seed does not depend on how many generators are created after it -/
+theorem ithSeed_stable (g : SeedGen) (n i : Nat) (hi : i < n) :
+    (SeedGen.seeds n g)[i]? = (SeedGen.seeds (i + 1) g)[i]? :=
+  seeds_getElem?_stable n i g hi
+
+example : SeedGen.seeds 3 ((SeedGen.init 9).setSeed 42).1 = [some 207452777, some 118353252, some 975868425] := by
+  decide
+
+/-- `ranlux24_base` as modelled never leaves its range: a seeded state has 24-bit words and a carry bit, and
+every draw returns a value `< 2^24` and preserves that — the premise `urng() ≤ urng.max()` under which
+libstdc++'s `uniform_int_distribution` is written. -/
+theorem ranlux24_stays_in_range (v : UInt64) :
+    (Swc.seed v).WF ∧ ∀ g : Swc, g.WF → g.next.1 < 16777216 ∧ g.next.2.WF :=
+  ⟨Swc.seed_WF v, fun g h => Swc.next_WF g h⟩
+
+example : (Swc.seed 1).next.1 = 8871692 := by decide
+
 /-! ## reseeding one generator -/
 
 /-- For every earlier history `h` of draws on an `RNG` in any state, `setLocalSeed s` followed by `ops` produces
